@@ -6,8 +6,245 @@ and queried; the answers are compared with the extracted Coq model (Model/C03.v,
 theorem's boolean specification specb (mode 2) is evaluated on the implementation's answers, and
 hamming_circle is compared with the model's circle as a sorted list (mode 3).
 """
-import os, itertools, json
-import fw
+import os, itertools, json, ast, hashlib
+import fw, py2coq
+from py2coq import Untranslatable
+
+SRC = 'singlecellmultiomics/barcodeFileParser/barcodeFileParser.py'
+
+
+# ------------------------------------------------------------------ T: regenerate coq/Gen/GenBarcode.v
+def _norm(node):
+    return ast.unparse(node)
+
+
+def _names(node):
+    return set(n.id for n in ast.walk(node) if isinstance(n, ast.Name))
+
+
+class SeqTranslator(py2coq.ExprTranslator):
+    """integer / boolean expressions over ONE python sequence `seq`:  len(seq) -> lenname,
+    seq[c] (optionally followed by a fixed projection, e.g. [0]) -> (elt idx) with python's negative
+    constant indices made explicit (seq[-c] -> elt (len - c)).  Everything else: the base subset."""
+    def __init__(self, seq, lenname, eltname, projection=None, env=None):
+        super().__init__(env=env or {})
+        self.seq, self.lenname, self.eltname, self.projection = seq, lenname, eltname, projection
+
+    def index(self, n):
+        if isinstance(n, ast.Constant) and isinstance(n.value, int) and not isinstance(n.value, bool):
+            return '%d' % n.value if n.value >= 0 else '(%s - %d)' % (self.lenname, -n.value)
+        if isinstance(n, ast.UnaryOp) and isinstance(n.op, ast.USub) and isinstance(n.operand, ast.Constant) \
+                and isinstance(n.operand.value, int):
+            return '(%s - %d)' % (self.lenname, n.operand.value)
+        self.fail(n, 'index into %s is not an integer literal' % self.seq)
+
+    def z(self, n):
+        if ast.unparse(n) in self.env:
+            return self.env[ast.unparse(n)]
+        if isinstance(n, ast.Call) and isinstance(n.func, ast.Name) and n.func.id == 'len' and len(n.args) == 1 \
+                and not n.keywords and _norm(n.args[0]) == self.seq:
+            return self.lenname
+        if isinstance(n, ast.Subscript):
+            inner = n
+            if self.projection is not None:
+                if not (isinstance(n.slice, ast.Constant) and n.slice.value == self.projection
+                        and isinstance(n.value, ast.Subscript)):
+                    self.fail(n, 'expected %s[i][%r]' % (self.seq, self.projection))
+                inner = n.value
+            if _norm(inner.value) != self.seq:
+                self.fail(n, 'subscript of something else than %s' % self.seq)
+            return '(%s %s)' % (self.eltname, self.index(inner.slice))
+        if isinstance(n, ast.Name) and n.id not in self.env:
+            self.fail(n, 'free name')
+        return super().z(n)
+
+
+def _chunk(src, node, coqname, params, body, note=None):
+    seg = ast.get_source_segment(src, node)
+    sha = hashlib.sha256(seg.encode()).hexdigest()
+    shown = ' '.join(seg.split()).replace('*)', '* )').replace('(*', '( *')
+    if len(shown) > 300:
+        shown = shown[:300] + ' ...'
+    text = '(* source: %s line %d-%d sha256 %s\n   %s%s *)\nDefinition %s %s :=\n  %s.' % (
+        SRC, node.lineno, node.end_lineno, sha, shown, ('\n   ' + note) if note else '', coqname, params, body)
+    return text, {'source': SRC, 'lines': [node.lineno, node.end_lineno], 'sha256': sha, 'coq': coqname}
+
+
+def _codes(sv):
+    return '[' + '; '.join(str(ord(c)) for c in sv) + ']'
+
+
+def _range_bounds(call, tr, what):
+    if not (isinstance(call, ast.Call) and isinstance(call.func, ast.Name) and call.func.id == 'range'
+            and not call.keywords and len(call.args) in (1, 2)):
+        raise Untranslatable('%s: not range(a) / range(a, b): %s' % (what, _norm(call)))
+    if len(call.args) == 1:
+        return '0', tr.z(call.args[0])
+    return tr.z(call.args[0]), tr.z(call.args[1])
+
+
+def regen_barcode():
+    """Fail-closed reading of the kernel the C03 theorems hinge on.  Every statement of the recognised
+    loops is matched; an unrecognised shape raises Untranslatable (the tie is then reported broken)."""
+    path = os.path.join(fw.REPO, SRC)
+    src = open(path).read()
+    tree = ast.parse(src)
+    chunks, meta = [], []
+
+    def add(tm):
+        chunks.append(tm[0]); meta.append(tm[1])
+
+    # ---------------- (b) hamming_circle
+    hc = py2coq.find_function(tree, 'hamming_circle')
+    if [a.arg for a in hc.args.args] != ['s', 'n', 'alphabet']:
+        raise Untranslatable('hamming_circle: signature changed')
+    body = [st for st in hc.body if not (isinstance(st, ast.Expr) and isinstance(st.value, ast.Constant))]
+    if len(body) != 1 or not isinstance(body[0], ast.For):
+        raise Untranslatable('hamming_circle: body is not one for loop')
+    f1 = body[0]
+    if _norm(f1.target) != 'positions' or _norm(f1.iter) != 'itertools.combinations(range(len(s)), n)' or f1.orelse:
+        raise Untranslatable('hamming_circle: outer loop is not `for positions in itertools.combinations(range(len(s)), n)`')
+    if len(f1.body) != 1 or not isinstance(f1.body[0], ast.For):
+        raise Untranslatable('hamming_circle: positions loop body changed')
+    f2 = f1.body[0]
+    it = f2.iter
+    if not (_norm(f2.target) == 'replacements' and isinstance(it, ast.Call) and _norm(it.func) == 'itertools.product'
+            and len(it.args) == 1 and len(it.keywords) == 1 and it.keywords[0].arg == 'repeat'
+            and _norm(it.keywords[0].value) == 'n' and not f2.orelse):
+        raise Untranslatable('hamming_circle: not `for replacements in itertools.product(range(..), repeat=n)`')
+    tr = py2coq.ExprTranslator(env={'len(alphabet)': 'alen'})
+    if _names(it.args[0]) - {'range', 'len', 'alphabet'}:
+        raise Untranslatable('hamming_circle: free names in %s' % _norm(it.args[0]))
+    lo, hi = _range_bounds(it.args[0], tr, 'hamming_circle replacements')
+    add(_chunk(src, it.args[0], 'gen_repl_range', '(alen : Z) : list Z', 'zrange %s %s' % (lo, hi),
+               'indices r into the alphabet a position may be replaced by'))
+    b2 = f2.body
+    if not (len(b2) == 3 and _norm(b2[0]) == 'cousin = list(s)' and isinstance(b2[1], ast.For)
+            and _norm(b2[2]) == "yield ''.join(cousin)"):
+        raise Untranslatable('hamming_circle: replacements loop body changed')
+    f3 = b2[1]
+    if not (_norm(f3.target) in ('(p, r)', 'p, r') and _norm(f3.iter) == 'zip(positions, replacements)' and len(f3.body) == 1
+            and isinstance(f3.body[0], ast.If) and not f3.orelse):
+        raise Untranslatable('hamming_circle: not `for p, r in zip(positions, replacements): if ...`')
+    iff = f3.body[0]
+
+    def assigned(stmts):
+        if not (len(stmts) == 1 and isinstance(stmts[0], ast.Assign) and len(stmts[0].targets) == 1
+                and _norm(stmts[0].targets[0]) == 'cousin[p]'):
+            raise Untranslatable('hamming_circle: branch is not a single `cousin[p] = ...`')
+        return stmts[0].value
+    st = SeqTranslator('alphabet', 'alen', 'aat', env={'cousin[p]': 'cur', 'alphabet[r]': 'ar'})
+    add(_chunk(src, iff, 'gen_replace', '(alen : Z) (aat : Z -> Z) (cur ar : Z) : Z',
+               'if %s then %s else %s' % (st.b(iff.test), st.z(assigned(iff.body)), st.z(assigned(iff.orelse))),
+               'cur = cousin[p], ar = alphabet[r], aat i = alphabet[i]'))
+
+    # ---------------- (a) expand
+    ex = py2coq.find_function(tree, 'BarcodeParser.expand')
+    body = [st for st in ex.body if not (isinstance(st, ast.Expr) and isinstance(st.value, ast.Constant))]
+    if not (len(body) == 4 and _norm(body[0]) == 'barcodes = self.barcodes[alias]'
+            and _norm(body[1]) == 'hammingSpace = collections.defaultdict(list)'
+            and isinstance(body[2], ast.For) and isinstance(body[3], ast.For)):
+        raise Untranslatable('expand: body is not  barcodes=..; hammingSpace=defaultdict(list); for ..; for ..')
+    g1 = body[2]
+    if not (_norm(g1.target) == 'barcode' and _norm(g1.iter) == 'barcodes' and len(g1.body) == 1
+            and isinstance(g1.body[0], ast.For) and not g1.orelse):
+        raise Untranslatable('expand: collection loop is not `for barcode in barcodes: for ...`')
+    g2 = g1.body[0]
+    if _norm(g2.target) != 'hammingDistance' or g2.orelse:
+        raise Untranslatable('expand: distance loop variable changed')
+    if _names(g2.iter) - {'range', 'hammingDistanceExpansion'}:
+        raise Untranslatable('expand: free names in %s' % _norm(g2.iter))
+    tr = py2coq.ExprTranslator(env={'hammingDistanceExpansion': 'k'})
+    lo, hi = _range_bounds(g2.iter, tr, 'expand distance loop')
+    add(_chunk(src, g2.iter, 'gen_dist_range', '(k : Z) : list Z', 'zrange %s %s' % (lo, hi)))
+    if not (len(g2.body) == 1 and isinstance(g2.body[0], ast.For)):
+        raise Untranslatable('expand: distance loop body changed')
+    g3 = g2.body[0]
+    call = g3.iter
+    if not (_norm(g3.target) == 'hammingInstance' and isinstance(call, ast.Call) and _norm(call.func) == 'hamming_circle'
+            and len(call.args) == 3 and not call.keywords and _norm(call.args[0]) == 'barcode'
+            and _norm(call.args[1]) == 'hammingDistance' and isinstance(call.args[2], ast.Constant)
+            and isinstance(call.args[2].value, str) and not g3.orelse):
+        raise Untranslatable('expand: not `for hammingInstance in hamming_circle(barcode, hammingDistance, <literal>)`')
+    add(_chunk(src, call.args[2], 'gen_alphabet', ': list Z', _codes(call.args[2].value),
+               'the alphabet literal expand passes to hamming_circle'))
+    if not (len(g3.body) == 1 and _norm(g3.body[0]) == 'hammingSpace[hammingInstance].append((hammingDistance, barcode))'):
+        raise Untranslatable('expand: the collected item is not (hammingDistance, barcode) appended to hammingSpace[hammingInstance]')
+    r1 = body[3]
+    if not (_norm(r1.target) == 'hammingBarcode' and _norm(r1.iter) == 'hammingSpace' and not r1.orelse and len(r1.body) == 4):
+        raise Untranslatable('expand: resolution loop changed')
+    srt, tie, pick, addb = r1.body
+    if _norm(srt) != 'sortedDistances = sorted(hammingSpace[hammingBarcode])':
+        raise Untranslatable('expand: sortedDistances is not sorted(hammingSpace[hammingBarcode])')
+    if not (isinstance(tie, ast.If) and not tie.orelse and len(tie.body) == 1 and isinstance(tie.body[0], ast.Continue)):
+        raise Untranslatable('expand: tie test is not `if ...: continue`')
+    st = SeqTranslator('sortedDistances', 'len', 'dist', projection=0)
+    add(_chunk(src, tie.test, 'gen_tie', '(len : Z) (dist : Z -> Z) : bool', st.b(tie.test),
+               'len = len(sortedDistances), dist i = sortedDistances[i][0]'))
+    if not (isinstance(pick, ast.Assign) and len(pick.targets) == 1 and _norm(pick.targets[0]) in ('(hammingDistance, origin)', 'hammingDistance, origin')
+            and isinstance(pick.value, ast.Subscript)):
+        raise Untranslatable('expand: not `hammingDistance, origin = sortedDistances[i]`')
+    st2 = SeqTranslator('sortedDistances', 'len', 'id')
+    sel = st2.z(pick.value)
+    add(_chunk(src, pick.value, 'gen_pick_index', '(len : Z) : Z', sel.replace('(id ', '(', 1),
+               'index of the entry that is assigned when there is no tie'))
+    want = ('self.addBarcode(alias, barcode=hammingBarcode, index=self.barcodes[alias][origin], '
+            'hammingDistance=hammingDistance, originBarcode=origin)')
+    if _norm(addb) != want:
+        raise Untranslatable('expand: addBarcode call changed: %s' % _norm(addb))
+
+    # ---------------- (c) lookup order
+    gi = py2coq.find_function(tree, 'BarcodeParser.getIndexCorrectedBarcodeAndHammingDistance')
+    if [a.arg for a in gi.args.args] != ['self', 'barcode', 'alias', 'try_lazy_load_pending']:
+        raise Untranslatable('getIndexCorrectedBarcodeAndHammingDistance: signature changed')
+    body = [st for st in gi.body if not (isinstance(st, ast.Expr) and isinstance(st.value, ast.Constant))]
+    stages = {
+        'if barcode in self.barcodes[alias]:\n    return (self.barcodes[alias][barcode], barcode, 0)': 0,
+        'if barcode in self.extendedBarcodes[alias]:\n    return self.extendedBarcodes[alias][barcode]': 1,
+        'if alias in self.pending_files:\n    if not try_lazy_load_pending:\n        raise RecursionError()\n'
+        '    self.parse_pending_barcode_file_of_alias(alias)\n'
+        '    return self.getIndexCorrectedBarcodeAndHammingDistance(barcode, alias, try_lazy_load_pending=False)': 2,
+    }
+    if not body or _norm(body[-1]) != 'return (None, None, None)':
+        raise Untranslatable('lookup: does not end in `return (None, None, None)`')
+    order = []
+    for stt in body[:-1]:
+        u = _norm(stt)
+        if u not in stages:
+            raise Untranslatable('lookup: unrecognised statement at line %d: %s' % (stt.lineno, u[:160]))
+        order.append(stages[u])
+    if sorted(order) != [0, 1, 2]:
+        raise Untranslatable('lookup: stages %r' % order)
+    add(_chunk(src, gi, 'gen_lookup_order', ': list Z', '[' + '; '.join(str(x) for x in order) + ']',
+               '0 = exact table, 1 = extended table, 2 = load the pending alias and look up once more'))
+
+    # ---------------- (d) column-order detection of parse_barcode_file
+    pf = py2coq.find_function(tree, 'BarcodeParser.parse_barcode_file')
+    asg = [n for n in ast.walk(pf) if isinstance(n, ast.Assign) and _norm(n.targets[0]) == 'indexFirst']
+    if len(asg) != 1:
+        raise Untranslatable('parse_barcode_file: expected one assignment to indexFirst, found %d' % len(asg))
+    v = asg[0].value
+    ok = (isinstance(v, ast.UnaryOp) and isinstance(v.op, ast.Not) and isinstance(v.operand, ast.Call)
+          and _norm(v.operand.func) == 'all' and len(v.operand.args) == 1 and isinstance(v.operand.args[0], ast.GeneratorExp))
+    if ok:
+        ge = v.operand.args[0]
+        ok = (len(ge.generators) == 1 and _norm(ge.generators[0].target) == 'c' and _norm(ge.generators[0].iter) == 'parts[0]'
+              and not ge.generators[0].ifs and isinstance(ge.elt, ast.Compare) and _norm(ge.elt.left) == 'c'
+              and len(ge.elt.ops) == 1 and isinstance(ge.elt.ops[0], ast.In)
+              and isinstance(ge.elt.comparators[0], ast.Constant) and isinstance(ge.elt.comparators[0].value, str))
+    if not ok:
+        raise Untranslatable("parse_barcode_file: indexFirst is not `not all((c in '<literal>') for c in parts[0])`")
+    add(_chunk(src, v, 'gen_column_class', ': list Z', _codes(ge.elt.comparators[0].value),
+               'a first column made of these characters only is a barcode column'))
+    flips = [n for n in ast.walk(pf) if isinstance(n, ast.If) and _norm(n.test) == 'not indexFirst']
+    if not (len(flips) == 1 and [_norm(x) for x in flips[0].body] == ['indexNotFirst = True'] and not flips[0].orelse):
+        raise Untranslatable('parse_barcode_file: `if not indexFirst: indexNotFirst = True` changed')
+    sw = [n for n in ast.walk(pf) if isinstance(n, ast.If) and _norm(n.test) == 'indexNotFirst']
+    if not (len(sw) == 1 and [_norm(x) for x in sw[0].body] == ['barcode, index = parts']
+            and [_norm(x) for x in sw[0].orelse] == ['index, barcode = parts']):
+        raise Untranslatable('parse_barcode_file: column swap changed')
+    py2coq.write_gen(os.path.join(fw.COQ, 'Gen', 'GenBarcode.v'), '', chunks)
+    return meta
 
 ALPHA = 'ACGTN'
 GETITEM = {'op': 'getitem'}     # parser[alias]  (__getitem__; loads a pending alias)
@@ -176,6 +413,9 @@ class Prop(fw.PropBase):
         'not covered)',
     ]
 
+    def regen(self):
+        return regen_barcode()
+
     # ---------------------------------------------------------------- generators
     def rand_bc(self, L, pN=0.1, extra=''):
         r = self.rng
@@ -191,10 +431,10 @@ class Prop(fw.PropBase):
     def gen_whitelist(self, L, n, flavour):
         """-> list of barcodes (may repeat, may differ in length)"""
         r = self.rng
-        pN = {'plain': 0.0, 'N': 0.25, 'near': 0.05, 'dup': 0.05, 'mixed': 0.05, 'nonwf': 0.05}[flavour]
+        pN = {'plain': 0.0, 'N': 0.25, 'allN': 0.2, 'near': 0.05, 'dup': 0.05, 'mixed': 0.05, 'nonwf': 0.05}[flavour]
         out = []
         while len(out) < n:
-            if out and flavour in ('near', 'dup', 'N', 'mixed', 'nonwf') and r.random() < 0.5:
+            if out and flavour in ('near', 'dup', 'N', 'allN', 'mixed', 'nonwf') and r.random() < 0.5:
                 src = r.choice(out)
                 nb = self.mutate(src, r.choice([1, 1, 2, 3])) if len(src) else src
                 if flavour == 'dup' and r.random() < 0.5:
@@ -204,13 +444,18 @@ class Prop(fw.PropBase):
                 if flavour == 'mixed' and r.random() < 0.4:
                     l = max(1, L + r.choice([-1, 1]))
                 nb = self.rand_bc(l, pN, extra=('X' if flavour == 'nonwf' else ''))
+            if flavour == 'allN' and 'N' not in nb and nb:
+                p = r.randrange(len(nb))            # every entry contains an N (column detection must accept N)
+                nb = nb[:p] + 'N' + nb[p + 1:]
             out.append(nb)
         return out
 
-    def render(self, bcs, tab):
+    def render(self, bcs, tab, prefer=None):
         """choose a file format; returns (name suffix, gz, content, raw lines [(barcode, token|lineno)])"""
         r = self.rng
         fmt = r.choice(['index_first', 'index_first', 'barcode_first', 'one_col', 'named'])
+        if prefer and r.random() < 0.6:
+            fmt = prefer
         sep = r.choice(['\t', ' '])
         gz = r.random() < 0.25
         raw, rows = [], []
@@ -228,6 +473,8 @@ class Prop(fw.PropBase):
         content = '\n'.join(rows) + ('\n' if r.random() < 0.8 else '')
         suffix = r.choice(['.bc', '.tsv', '.txt']) if not gz else r.choice(['.bc.gz', '.gz'])
         lines = [(b, tab.of_token(t)) for b, t in raw]
+        self._last_rows = None if fmt == 'one_col' else [r.split(sep) for r in rows]
+        self._last_raw = raw
         return suffix, gz, content, lines, fmt
 
     def queries_for(self, bcs, k, exhaustive_max):
@@ -306,10 +553,10 @@ class Prop(fw.PropBase):
                     n = r.randint(1, 9)
                 if k == 3 and L > 4:
                     L = 4
-                flavour = r.choice(['plain', 'N', 'near', 'near', 'dup', 'mixed', 'nonwf'])
+                flavour = r.choice(['plain', 'N', 'allN', 'near', 'near', 'dup', 'mixed', 'nonwf'])
                 bcs = self.gen_whitelist(L, n, flavour)
                 tab = IndexTable()
-                suffix, gz, content, lines, fmt = self.render(bcs, tab)
+                suffix, gz, content, lines, fmt = self.render(bcs, tab, prefer='barcode_first' if flavour == 'allN' else None)
                 alias = 'w%d_%d' % (gi, ai)
                 files.append({'name': alias + suffix, 'content': content, 'gz': gz})
                 qs, exhaustive = self.queries_for(bcs, k, exh if L <= exh else 0)
@@ -318,7 +565,7 @@ class Prop(fw.PropBase):
                 aliases.append(alias)
                 percase.append({'alias': alias, 'lines': lines, 'k': k, 'queries': qs, 'tab': tab, 'fmt': fmt,
                                 'gz': gz, 'flavour': flavour, 'exhaustive': exhaustive, 'kind': 'file',
-                                'file': files[-1]})
+                                'file': files[-1], 'rows': self._last_rows, 'raw': self._last_raw})
             mode = r.choice(['eager', 'star', 'some', 'some'])
             lazy = None if mode == 'eager' else ('*' if mode == 'star' else [a for a in aliases if r.random() < 0.5])
             for c in percase:
@@ -631,6 +878,17 @@ class Prop(fw.PropBase):
         self.cov['tables_compared'] = len(tcases)
         self.cov['table_entries_compared'] = sum(len(tb.get('exact', [])) + len(tb.get('extended', [])) for _, tb in tcases)
         self.cov['table_disagreements'] = len(tdis)
+        # --- column-order detection: the model's parse_rows (with the regenerated character class) on the rows as
+        # written must give the (barcode, index token) pairs the file was rendered from (the implementation
+        # was just shown to load exactly those)
+        pcases = [c for c in mcases if c.get('rows')]
+        pout = fw.run_model('C03', 6, [c['rows'] for c in pcases]) if pcases else []
+        pdis = [c for c, o in zip(pcases, pout)
+                if [[fw.as_str(b), fw.as_str(t)] for b, t in o] != [[b, str(t)] for b, t in c['raw']]]
+        self.cov['parse_rows_compared'] = len(pcases)
+        self.cov['parse_rows_disagreements'] = len(pdis)
+        if pdis:
+            tdis.append({'case': pdis[0], 'parse_rows': 'model column detection differs from the rendered file'})
         # --- hamming_circle as a sorted list
         mc = fw.run_model('C03', 3, [[s, n] for s, n in circle])
         cdis = []
@@ -691,8 +949,7 @@ class Prop(fw.PropBase):
         fails = []
         acc_seen = set()
         for c in self.cases:
-            if not all(in_alpha(b) for b, _ in c['lines']):
-                continue
+            wl_wf = all(in_alpha(b) for b, _ in c['lines'])
             impl = self.impl_answers(self.res, c)
             for pos, (q, a) in enumerate(zip(c['queries'], impl)):
                 if not isinstance(q, str):
@@ -703,9 +960,9 @@ class Prop(fw.PropBase):
                             self.witnesses.append({'key': 'getitem', 'what': 'parser[alias] on whitelist %r returned %s; expected the '
                                                    'barcode -> index mapping %r' % (c['lines'][:12], str(a)[:300], expected_items(c['lines'])[:12]),
                                                    'input': {'lines': c['lines'], 'k': c['k'], 'lazy': c['lazy'], 'format': c['fmt'],
-                                                             'history_prefix': c['queries'][:pos + 1]}, 'impl': a})
+                                                             'history_prefix': c['queries'][:pos + 1], 'file': c.get('file')}, 'impl': a})
                     continue
-                if not in_alpha(q):
+                if not wl_wf or not in_alpha(q):
                     continue
                 exp = oracle(c['lines'], c['k'], q)
                 got = self.canon_impl(c, a)
